@@ -1171,6 +1171,19 @@ impl CompileState<'_> {
 
                 all_values.push((value.clone(), v_span));
             }
+
+            // A binding pattern must be the only pattern of its arm: the arm unwraps the
+            // scrutinee as the bound variant, which fails when another alternative
+            // (e.g. `Ok(x) | Err(5)` or `Some(x) | None`) is the one that matched.
+            if values.len() > 1
+                && let Some(binding) = values.iter().find(|v| is_binding_pattern(&v.inner))
+            {
+                return Err(self.err(InvalidExpression(
+                    "a binding pattern cannot be combined with other patterns in the same match arm",
+                    binding.clone(),
+                    None,
+                )));
+            }
         }
 
         // find duplicate default arms
